@@ -59,7 +59,7 @@ PROBES = ["turn_change", "restore_with_progress", "extra_ball", "early_end_game"
           "dispatch_live", "dispatch_transient", "dispatch_dead_in_game", "dispatch_no_game", "hook_post",
           "hold_window", "lb_complete", "lb_timeout", "dl_fired", "timer_tick", "m2_restart_next_ball",
           "histories_differ", "may_applied", "may_skipped", "op_on_timer_deadline", "mode_started_while_ball_ending",
-          "sq_step", "sq_pending_at_ball_end", "sg2_rotate_enabled", "sg2_rotate_disabled"]
+          "sq_step", "sq_step_after_game", "sq_pending_at_ball_end", "sg2_rotate_enabled", "sg2_rotate_disabled"]
 REAL = ["mpf.core.player.Player", "mpf.modes.game.code.game.Game", "mpf.core.mode.Mode / ModeController",
         "mpf.devices.logic_blocks (Counter, Accrual, Sequence)", "mpf.devices.shot / shot_group / shot_profile",
         "mpf.devices.achievement", "mpf.devices.timer", "mpf.core.enable_disable_mixin",
@@ -323,6 +323,9 @@ class Harness:
         self.done = False
         self.end_m2 = {}             # player -> was m2 live when this player's last ball began to end (None: unclear)
         self.m2_touch = {}           # player -> m2 start/stop events dispatched while that player was up since then
+        self.posting_player = None   # Player object that is posting a player_<var> event right now
+        self.prev_players = []       # Player objects of the game that ended last
+        self.old_late = []           # [Player object of a finished game, points it queued after the ball end stopped waiting]
         self.sq_due = {}             # player -> points earned in earlier balls that must have arrived at ball_started
         self.sq_released = False     # ... and has stopped waiting (the ball end goes on whatever is queued now)
         self.sq_block = False        # the score queue's ball_ending handler has started (ball end waits for the queue)
@@ -390,6 +393,18 @@ class Harness:
                 h.on_unload(mode)
         Mode._add_mode_devices = _add
         Mode._remove_mode_devices = _rm
+        from mpf.core.player import Player
+        orig_send = Player._send_variable_event
+
+        def _send(player, *args, **kwargs):
+            # read-only: remember which Player object posts the player_<var> event (player_num alone is ambiguous
+            # once a new game has started: the previous game's Player 1 and the new Player 1 share the number)
+            h.posting_player = player
+            try:
+                return orig_send(player, *args, **kwargs)
+            finally:
+                h.posting_player = None
+        Player._send_variable_event = _send
 
         def mk(fn, name):
             def handler(**kwargs):
@@ -533,8 +548,13 @@ class Harness:
         num, value, prev, change = kw["player_num"], kw["value"], kw["prev_value"], kw["change"]
         ctx.log("var", var, num, repr(value), repr(prev), repr(change), t=self.sim.now)
         g = self.m.game
-        if g is None and var == "sq_pts":
-            return      # the last queued chime steps of a game that is over: nobody's turn, nothing to compare with
+        owner = self.posting_player
+        if owner is not None and (g is None or all(owner is not q for q in g.player_list)):
+            # The Player object belongs to a game that is over.  Only one thing may still reach it: chime steps of
+            # score queue entries this very player queued while his last ball was already ending
+            # (R-queued-score-arrives-late); they go to the player who earned them, never to the new game.
+            self.on_finished_player_event(owner, var, kw)
+            return
         if g is None:
             self.bad("isolation", "player variable changed while no game is running: %s" % var,
                      "player_%s %r posted after the game ended" % (var, kw))
@@ -592,8 +612,7 @@ class Harness:
                 msg = ("score queue added %r to player %r (player up: %r) who has %r undelivered queued points; "
                        "undelivered [certain, possible, queued after the ball end stopped waiting] per player: %r"
                        % (change, num, curp, pool, owed))
-                if not late and isinstance(change, int) and 0 < change <= self.dev.get("sq_prev", 0):
-                    self.dev["sq_prev"] -= change
+                if not late and isinstance(change, int) and any(0 < change <= e[1] for e in self.old_late):
                     self.bad("unjustified_change", "score queued after ball_ending stopped waiting is credited to the next player",
                              msg + " - points queued while the last ball of the previous game was ending went to a player of this game")
                 if late and isinstance(change, int) and change > 0:
@@ -607,6 +626,12 @@ class Harness:
                 rest -= take
                 if i == 0 and take:      # the queue is FIFO: what was earned in earlier balls arrives first
                     self.sq_due[num] = max(0, self.sq_due.get(num, 0) - take)
+                    if num != curp:
+                        # queued while the ball end was still going to wait for the queue: must arrive within the turn
+                        self.bad("isolation", "score queued before the ball ended reaches its owner in another player's turn",
+                                 "score queue added %r to player %r while player %r is up; these points were queued "
+                                 "before ball_ending stopped waiting for the queue, so the turn must not have ended"
+                                 % (change, num, curp))
             ps = self.shadow(num)
             ps["vars"]["sq_pts"] = ps["vars"].get("sq_pts", 0) + change
             ctx.probe("sq_step")
@@ -626,6 +651,35 @@ class Harness:
             return
         self.bad("unjustified_change", "player variable changed outside any event of that player's turn: %s" % var,
                  "player_%s %r posted outside a stimulus dispatch and outside a mode load" % (var, kw))
+
+    def on_finished_player_event(self, owner, var, kw):
+        value, change = kw["value"], kw["change"]
+        pool = None
+        if self.m.game is None and any(owner is q for q in self.prev_players) and self.dev["sq"].get(kw["player_num"]):
+            pool = self.dev["sq"][kw["player_num"]]          # the game just ended, its pools were not archived yet
+            avail = sum(pool)
+        else:
+            ent = [e for e in self.old_late if e[0] is owner]
+            avail = ent[0][1] if ent else 0
+        ok = (var == "sq_pts" and isinstance(change, int) and 0 < change <= avail and
+              M.canon_value(owner.vars.get(var)) == M.canon_value(value))
+        if not ok:
+            self.bad("isolation", "variable of a player of a finished game changed: %s" % var,
+                     "player_%s %r was posted by a Player object of a game that is over (undelivered queued points of "
+                     "that player: %r)" % (var, kw, avail))
+        if pool is not None:
+            rest = change
+            for i in (0, 1, 2):
+                take = min(pool[i], rest)
+                pool[i] -= take
+                rest -= take
+                if i == 0 and take:
+                    self.bad("isolation", "score queued before the ball ended reaches its owner after the game",
+                             "score queue added %r to player %r after the game ended; these points were queued before "
+                             "ball_ending stopped waiting for the queue, so the ball must not have ended" % (change, kw["player_num"]))
+        else:
+            ent[0][1] -= change
+        self.ctx.probe("sq_step_after_game")
 
     def on_timeout(self, name):
         """<name>_timeout was posted: the logic block is about to be reset by its timeout."""
@@ -952,7 +1006,9 @@ class Harness:
             self.end_m2 = {}
             self.m2_touch = {}
             self.check_sq_delivered(None, "game_will_start")
-            self.dev["sq_prev"] = self.dev.get("sq_prev", 0) + sum(v[2] for v in self.dev["sq"].values())
+            for q in sorted(self.dev["sq"]):
+                if self.dev["sq"][q][2] > 0 and q <= len(self.prev_players):
+                    self.old_late.append([self.prev_players[q - 1], self.dev["sq"][q][2]])
             self.dev["sq"] = {}
             self.sq_due = {}
             if self.game_no > 1:
@@ -1006,6 +1062,9 @@ class Harness:
             c = self.mode_class("m2")
             self.end_m2[curp] = True if c == LIVE else (False if c == DEAD else None)
             self.m2_touch[curp] = 0
+        elif name == "game_ended":
+            if g is not None:
+                self.prev_players = list(g.player_list)
         elif name == "game_will_end":
             if g is not None and g.player is not None:
                 balls = self.cfg["balls"]
